@@ -136,6 +136,17 @@ class TBRMMDesignParameters:
     self._test_value_within_bounds(self._MIN_CORR, '<=', 'min_corr', '<', 1.0)
     self._test_value_within_bounds(0.9, '<=', 'flevel', '<', 1.0)
 
+    # Integer-valued floats are accepted for the integer-valued parameters.
+    # They are stored as integers, since they are used as sizes and indices.
+    for attr in ('n_test', 'n_geos_max', 'n_pretest_max', 'n_designs'):
+      value = getattr(self, attr)
+      if isinstance(value, float):
+        setattr(self, attr, int(value))
+    for attr in ('treatment_geos_range', 'control_geos_range'):
+      value = getattr(self, attr)
+      if value is not None and any(isinstance(x, float) for x in value):
+        setattr(self, attr, tuple(int(x) for x in value))
+
   def __eq__(self, other: 'TBRMMDesignParameters'):
     """Checks if two instances of TMDesignParameters are equal."""
     if not isinstance(other, TBRMMDesignParameters):
